@@ -491,7 +491,7 @@ func (g *Gen) applyContract(fr *Frame, st *State, site ssa.Instruction, fc *Func
 }
 
 func (g *Gen) havocPlace(st *State, p *Ptr) {
-	if gt, ok := p.Ty.(ghostType); ok {
+	if gt, ok := p.Ty.(ghostType); ok && p.Kind == pCell {
 		g.setCell(st, p.Cell, Val{T: g.vc.freshConst("gh", gt.srt), S: gt.srt, Ty: gt.ty})
 		return
 	}
@@ -551,6 +551,12 @@ func (g *Gen) callSiteClauses(fr *Frame, st *State, site ssa.Instruction, c *ssa
 			continue
 		}
 		g.seenCall[cl] = true
+		if !g.coveredSite[site] {
+			g.coveredSite[site] = true
+			fr.callIdx["cover:"+key]++
+			g.addObligation(&Obligation{Name: fmt.Sprintf("%s.call[%s#%d].cover.reachable", fr.topKey(), key, fr.callIdx["cover:"+key]), Func: fr.topKey(), Kind: "cover",
+				Guard: r, Goal: "false", Expect: "sat", Src: "vacuity guard: this call site is reachable under the assumptions", Pos: g.posOf(site)})
+		}
 		if cl.Kind == "callcover" {
 			continue
 		}
